@@ -127,6 +127,10 @@ def builders(tier='quick', seed=0):
         cr = host.addbasis(host.Wyckoffpos(np.array([0.27, 0.5])) + host.Wyckoffpos(np.array([0.5, 0.18])), ['X'])
         return _entry('rect2D-rot30', cr, chem=1, nshell=3, interstitial=True)
     add('rect2D-rot30', rect2Drot)
+    # plane group p1: two sites of the mobile species and a third atom that removes the inversion centre; the second-shell
+    # cutoff includes jumps between translation images of one site (they drop out of the q=0 rate matrix)
+    add('p1-2D-AAB', lambda: _entry('p1-2D-AAB', C(np.array([[-0.0254, -0.8170], [0.5890, 0.1472]]),
+                                                  [[np.array([0.5465, 0.2220]), np.array([0.0691, 0.3647])], [np.array([0.1994, 0.0439])]], chemistry=['A', 'B']), nshell=2))
     if tier == 'thorough':
         add('mono-P2/m', lambda: monoP2m(False))
         add('HCP-rotated', lambda: _entry('HCP-rotated', C(rot3() @ HEX * np.array([1, 1, 1.633 / 1.6]), [[np.array([1 / 3, 2 / 3, .25]), np.array([2 / 3, 1 / 3, .75])]], chemistry=['A'])))
